@@ -7,12 +7,13 @@ from .interp import Interp, Frame, bind_args
 from .exprs import ExprMixin
 from .calls import CallMixin
 from .loops import LoopMixin
+from .iolib import IoMixin
 from .symeval import Config, Ctx, Outcome, explore, RaiseSignal, val_key, opaque_of
 from .repo import Repo, FuncInfo
 from .values import *
 
 
-class Evaluator(Interp, ExprMixin, CallMixin, LoopMixin):
+class Evaluator(Interp, ExprMixin, CallMixin, LoopMixin, IoMixin):
     pass
 
 
